@@ -968,6 +968,102 @@ fn cases(entry: Entry) -> BoxedStrategy<Case> {
 	}
 }
 
+
+// ---------------------------------------------------------------------------------------
+// coverage-guided stage (thorough tier): libFuzzer via cargo-fuzz on the in-memory decoders
+// ---------------------------------------------------------------------------------------
+
+/// Runs the cargo-fuzz targets with corpora seeded from the generators above, then hands every
+/// artifact libFuzzer wrote (crash-*, oom-*, timeout-*) to the same worker/oracle as the
+/// generated cases, so that a finding is classified (and replayable) exactly like the others.
+fn libfuzzer_stage(check: &mut Check) {
+	let targets: [(&str, Entry, u64); 8] = [
+		("json", Entry::JsonBlob, 3_000_000),
+		("tilejson", Entry::TileJsonBlob, 2_000_000),
+		("csv", Entry::Csv, 3_000_000),
+		("geovalue", Entry::GeoValue, 3_000_000),
+		("vpl", Entry::Factory, 400_000),
+		("mvt", Entry::Mvt, 3_000_000),
+		("versatiles", Entry::VersatilesBlob, 2_000_000),
+		("pmtiles", Entry::PmtilesBlob, 2_000_000),
+	];
+	let harness_dir = std::env::current_exe().ok().and_then(|_| std::env::var("VERIF_HARNESS_DIR").ok()).unwrap_or_else(|| "/verif/harness".to_string());
+	let build = Command::new("cargo").args(["+nightly", "fuzz", "build"]).current_dir(&harness_dir).env("CARGO_NET_OFFLINE", "true").output();
+	match build {
+		Ok(o) if o.status.success() => {}
+		Ok(o) => {
+			let err = String::from_utf8_lossy(&o.stderr);
+			let tail: Vec<&str> = err.lines().rev().take(25).collect();
+			vt::engine::die(&format!("cargo fuzz build failed:\n{}", tail.into_iter().rev().collect::<Vec<_>>().join("\n")));
+		}
+		Err(e) => vt::engine::die(&format!("cannot run cargo fuzz: {e}")),
+	}
+	let seed = check.seed;
+	let mut handles = vec![];
+	for (target, entry, runs) in targets {
+		let corpus = util::tmp_dir();
+		let artifacts = util::tmp_dir();
+		// corpus: valid and lightly mutated encodings from the generators
+		for i in 0..300u64 {
+			let c = vt::engine::sample_one(&cases(entry), seed.wrapping_mul(1000).wrapping_add(i));
+			if c.data.len() <= 65536 {
+				let _ = std::fs::write(corpus.join(format!("seed{i}")), &c.data);
+			}
+		}
+		let harness_dir = harness_dir.clone();
+		handles.push(std::thread::spawn(move || {
+			// libFuzzer stops at the first artifact (crash, oom or timeout): restart it a few times so
+			// that a campaign continues behind a finding
+			let mut executed = 0u64;
+			let mut cov = 0u64;
+			for round in 0..6u64 {
+				let before = std::fs::read_dir(&artifacts).map(|d| d.count()).unwrap_or(0);
+				let left = runs.saturating_sub(executed);
+				if left < 1000 {
+					break;
+				}
+				let out = Command::new("cargo")
+					.args(["+nightly", "fuzz", "run", target])
+					.arg(&corpus)
+					.arg("--")
+					.args([format!("-runs={left}"), format!("-seed={}", ((seed + round) % 0xffff_fffe) + 1), "-max_len=65536".into(), "-timeout=10".into(), "-malloc_limit_mb=256".into(), "-rss_limit_mb=4096".into(), "-len_control=0".into(), "-print_final_stats=1".into()])
+					.arg(format!("-artifact_prefix={}/", artifacts.display()))
+					.current_dir(&harness_dir)
+					.env("CARGO_NET_OFFLINE", "true")
+					.env("RUST_BACKTRACE", "0")
+					.output();
+				let stderr = out.map(|o| String::from_utf8_lossy(&o.stderr).to_string()).unwrap_or_default();
+				executed += stderr.lines().find_map(|l| l.strip_prefix("stat::number_of_executed_units:").map(|v| v.trim().parse::<u64>().unwrap_or(0))).unwrap_or(0);
+				cov = cov.max(stderr.lines().rev().find_map(|l| l.split("cov: ").nth(1).and_then(|r| r.split(' ').next()).and_then(|v| v.parse::<u64>().ok())).unwrap_or(0));
+				let after = std::fs::read_dir(&artifacts).map(|d| d.count()).unwrap_or(0);
+				if after == before {
+					break;
+				}
+			}
+			let mut found = vec![];
+			if let Ok(rd) = std::fs::read_dir(&artifacts) {
+				for e in rd.flatten() {
+					if let Ok(data) = std::fs::read(e.path()) {
+						found.push((e.file_name().to_string_lossy().to_string(), data));
+					}
+				}
+			}
+			let _ = std::fs::remove_dir_all(&corpus);
+			let _ = std::fs::remove_dir_all(&artifacts);
+			(target, entry, executed, cov, found)
+		}));
+	}
+	let mut stats = vec![];
+	for h in handles {
+		let (target, entry, executed, cov, found) = h.join().expect("fuzz thread");
+		stats.push(serde_json::json!({"target": target, "executed_units": executed, "coverage_edges": cov, "artifacts": found.iter().map(|(n, _)| n.clone()).collect::<Vec<_>>()}));
+		// the in-memory targets correspond to these entries; `vpl` feeds both parser and factory
+		let list: Vec<Case> = found.into_iter().map(|(name, data)| Case { entry, data, files: if entry == Entry::Factory { vec![("data.csv".to_string(), data_csv())] } else { vec![] }, origin: format!("libfuzzer:{name}") }).collect();
+		check.enumerate(&format!("libfuzzer-{target}"), list, false, oracle);
+	}
+	check.extra.insert("libfuzzer".into(), serde_json::Value::Array(stats));
+}
+
 // ---------------------------------------------------------------------------------------
 // main
 // ---------------------------------------------------------------------------------------
@@ -997,6 +1093,9 @@ fn main() {
 			_ => check.cases(8000, 600_000),
 		};
 		check.phase(&name, n, || cases(entry), oracle);
+	}
+	if check.tier == vt::engine::Tier::Thorough && !check.is_replay() && std::env::var("VERIF_NO_LIBFUZZER").is_err() {
+		libfuzzer_stage(&mut check);
 	}
 	check.finish();
 }
